@@ -44,8 +44,8 @@ func apiErr(err error, name string) string {
 func fbits(f float64) string { return fmt.Sprintf("%016X", math.Float64bits(f)) }
 
 type outcome struct {
-	tok   string // transport outcome token handed to the model
-	ans   *DevAnswer
+	tok string // transport outcome token handed to the model
+	ans *DevAnswer
 }
 
 func okOutcome(p []byte) outcome { return outcome{"ok:" + HEX(p), &DevAnswer{0, p}} }
@@ -728,7 +728,7 @@ func suiteC11(rng *Rng, thorough bool, s *Sink) {
 			s.Violate(op, out, fmt.Sprintf("device id 0x%04X (%q): known product of a supported type = %v, but connect gave %s", id, p.String(), supported, out))
 		}
 		if api != nil && err == nil {
-			want, _ := veregister.GetRegisterListByProduct(p)
+			want := classList(productClass(p)) // the list defined for the product's class (C12's oracle), not the library's selection
 			if uint16(api.Product) != uint16(id) || renderList(api.Registers) != renderList(want) {
 				s.Violate(op, out, fmt.Sprintf("device id 0x%04X: object's product 0x%04X / register list differ from the id / the list defined for that product", id, uint16(api.Product)))
 			}
@@ -739,10 +739,10 @@ func suiteC11(rng *Rng, thorough bool, s *Sink) {
 	}
 	// failure shapes
 	type shape struct {
-		name   string
-		set    func(d *DevPort)
-		ping   string
-		devid  func(id uint16) string
+		name  string
+		set   func(d *DevPort)
+		ping  string
+		devid func(id uint16) string
 	}
 	okId := func(id uint16) string { return fmt.Sprintf("ok:%d", id) }
 	errId := func(id uint16) string { return "err" }
